@@ -34,9 +34,18 @@ NumericTs == {t \in 1..NT : Numeric(Ty(t))}
 NumTupleTs == {t \in NumericTs : Ty(t).k = "ttuple"}
 ND == Len(Divisors)
 
+\* histories: history x of type t = (triple number x \div ntpl, template x % ntpl); HPB histories per batch (one Sylt function each)
+HPB == 8
+NH == Len(HistTable)
+HTy(t) == HistTable[t].ty
+HStride(t) == IF Tier = "quick" THEN HistTable[t].qs ELSE 1
+NTriples(t) == LET n == Count(HTy(t))  s == HStride(t)  off == Seed % s IN (n * n * n - off + s - 1) \div s
+NHist(t) == NTriples(t) * Len(TemplatesFor(HTy(t)))
+
 J(kind, t, c) == [kind |-> kind, t |-> t, c |-> c]
 Jobs ==
   IF Tier = "deep" THEN {J("deep", t, c) : t \in 1..Len(DeepTable), c \in 1..NDeep}
+  ELSE IF Tier = "hist" THEN UNION {{J("hist", t, c) : c \in 1..NChunks(NHist(t), HPB)} : t \in 1..NH}
   ELSE UNION {{J("pairs", t, c) : c \in 1..NChunks(NSel(t), PairsPerBatch(Ty(t)))} : t \in 1..NT}
        \cup UNION {{J("diag", t, c) : c \in 1..NChunks(Count(Ty(t)), PairsPerBatch(Ty(t)))} : t \in {x \in 1..NT : Stride(x) > 1}}
        \cup UNION {{J("neg", t, c) : c \in 1..NChunks(Count(Ty(t)), 40)} : t \in NumericTs}
@@ -44,6 +53,7 @@ Jobs ==
        \cup {J("trans", t, 1) : t \in {x \in 1..NT : Count(Ty(x)) <= 30}}
        \cup {J("prov", 0, c) : c \in 1..Len(ProvTable)}
        \cup {J("alias", t, 1) : t \in 1..NT}
+       \cup UNION {{J("hist", t, c) : c \in 1..NChunks(NHist(t), HPB)} : t \in 1..NH}
 
 RECURSIVE Flat(_, _)
 Flat(ss, i) == IF i > Len(ss) THEN <<>> ELSE ss[i] \o Flat(ss, i + 1)
@@ -86,6 +96,17 @@ Result(j) ==
     [] j.kind = "trans" -> [apps |-> <<>>, laws |-> TransViolations(Ty(j.t)), npairs |-> Count(Ty(j.t))]
     [] j.kind = "prov" -> [apps |-> ProvApps(ProvTable[j.c]), laws |-> ProvLaws(ProvTable[j.c]), npairs |-> 1]
     [] j.kind = "alias" -> [apps |-> AliasApps(Ty(j.t)), laws |-> {}, npairs |-> 1]
+    [] j.kind = "hist" ->
+         LET ty == HTy(j.t)  n == Count(ty)  s == HStride(j.t)  off == Seed % s
+             tpls == TemplatesFor(ty)  nt == Len(tpls)
+             lo == (j.c - 1) * HPB  hi == Min3(j.c * HPB, NHist(j.t)) - 1
+             hist(x) == LET tri == off + (x \div nt) * s IN
+                        History(ty, <<tri \div (n * n), (tri \div n) % n, tri % n>>, tpls[(x % nt) + 1], x - lo + 1)
+             hs == [x \in 1..(hi - lo + 1) |-> hist(lo + x - 1)]
+             all == Flat([x \in 1..Len(hs) |-> hs[x].apps], 1) IN
+         [apps |-> [i \in 1..Len(all) |-> [ok |-> all[i].ok, stuck |-> all[i].stuck, item |-> all[i].item]],
+          laws |-> UnionLaws(all, 1) \cup UNION {Law(hs[x].bound, "history-bindings-evaluate") : x \in 1..Len(hs)},
+          npairs |-> Len(hs), binds |-> [x \in 1..Len(hs) |-> hs[x].binds]]
 
 Selected == IF OnlyKind = "" /\ OnlyT = 0 THEN Jobs
             ELSE {j \in Jobs : (OnlyKind = "" \/ j.kind = OnlyKind) /\ (OnlyT = 0 \/ j.t = OnlyT)}
@@ -99,10 +120,11 @@ Outcome(j) ==
       oks == SelectSeq(apps, LAMBDA x : x.ok)
       nstuck == Len(SelectSeq(apps, LAMBDA x : x.stuck))
       items == IF Len(oks) = 0 THEN <<>> ELSE [i \in 1..Len(oks) |-> oks[i].item]
-      shape == IF j.kind = "deep" THEN Shape(DeepTable[j.t]) ELSE IF j.t = 0 THEN "-" ELSE Shape(Ty(j.t)) IN
+      shape == IF j.kind = "deep" THEN Shape(DeepTable[j.t]) ELSE IF j.kind = "hist" THEN Shape(HTy(j.t))
+               ELSE IF j.t = 0 THEN "-" ELSE Shape(Ty(j.t)) IN
   [viol |-> {l.n : l \in {x \in r.laws : ~x.ok}} \cup (IF nstuck > 0 THEN {"applicable-operator-stuck"} ELSE {}),
    rec |-> [id |-> j, shape |-> shape, items |-> items, npairs |-> r.npairs, dropped |-> Len(apps) - Len(oks) - nstuck,
-            laws |-> {l.n : l \in r.laws}]]
+            laws |-> {l.n : l \in r.laws}, binds |-> IF j.kind = "hist" THEN r.binds ELSE <<>>]]
 
 Emit(j) == LET o == Outcome(j) IN IF PrintT(<<"REPLAY", ToJson(o.rec)>>) THEN o.viol ELSE o.viol
 
@@ -122,8 +144,9 @@ RunTrans == RunKind("trans")
 RunProv  == RunKind("prov")
 RunAlias == RunKind("alias")
 RunDeep  == RunKind("deep")
+RunHist  == RunKind("hist")
 
-Next == RunPairs \/ RunDiag \/ RunNeg \/ RunDivN \/ RunTrans \/ RunProv \/ RunAlias \/ RunDeep
+Next == RunPairs \/ RunDiag \/ RunNeg \/ RunDivN \/ RunTrans \/ RunProv \/ RunAlias \/ RunDeep \/ RunHist
 Spec == Init /\ [][Next]_vars
 
 NoLawViolated == viol = {}
